@@ -7,12 +7,15 @@
 (* bounded early-exit loop.  One step per call the implementation makes;   *)
 (* the call log is part of the state.                                      *)
 (*                                                                         *)
-(* in = [listing : Seq("valid"|"invalid"|"unfetchable"),                   *)
+(* in = [listing : Seq("valid"|"invalid"|"unfetchable"|"nilOutcome"),      *)
+(*       ("nilOutcome": the verifier fails without handing out an outcome) *)
 (*       pages   : Seq(Nat)  (page sizes, summing to Len(listing)),        *)
 (*       n       : Int (attempt limit),                                    *)
 (*       ref     : "tag"|"digestMatch"|"digestMismatch"|"noTagNoDigest"|   *)
-(*                 "unparsable",                                           *)
-(*       skip    : BOOLEAN]                                                *)
+(*                 "unparsable"|"unresolvable",                            *)
+(*       skip    : "no" | "yes" | "error" (the skip check itself fails),   *)
+(*       listErr : BOOLEAN (the repository reports an error after the last *)
+(*                 page, unless the callback stopped the listing before)]  *)
 (***************************************************************************)
 EXTENDS Common, Integers
 
@@ -30,17 +33,19 @@ VStep(s) ==
   CASE s.pc = "args" ->
          IF in.n <= 0 THEN VFail(s, "limit-not-positive") ELSE [s EXCEPT !.pc = "skipcheck"]
     [] s.pc = "skipcheck" ->
-         IF in.skip THEN [Call(s, "SkipVerify", 0) EXCEPT !.pc = "done", !.verdict = "success", !.why = "skip", !.outcomes = <<0>>]
+         IF in.skip = "error" THEN VFail(Call(s, "SkipVerify", 0), "skip-check-failed")
+         ELSE IF in.skip = "yes" THEN [Call(s, "SkipVerify", 0) EXCEPT !.pc = "done", !.verdict = "success", !.why = "skip", !.outcomes = <<0>>]
          ELSE [Call(s, "SkipVerify", 0) EXCEPT !.pc = "parse"]
     [] s.pc = "parse" ->
          IF in.ref = "unparsable" THEN VFail(s, "reference-unparsable")
          ELSE IF in.ref = "noTagNoDigest" THEN VFail(s, "reference-without-tag-or-digest")
          ELSE [s EXCEPT !.pc = "resolve"]
-    [] s.pc = "resolve" -> [Call(s, "Resolve", 0) EXCEPT !.pc = "pin"]
+    [] s.pc = "resolve" -> IF in.ref = "unresolvable" THEN VFail(Call(s, "Resolve", 0), "unresolvable")
+                           ELSE [Call(s, "Resolve", 0) EXCEPT !.pc = "pin"]
     [] s.pc = "pin" ->
          IF in.ref = "digestMismatch" THEN VFail(s, "digest-mismatch") ELSE [Call(s, "List", 0) EXCEPT !.pc = "page"]
     [] s.pc = "page" ->      \* the repository hands the next page to the callback (or the listing is exhausted)
-         IF s.page > Len(in.pages) THEN [s EXCEPT !.pc = "finish"]
+         IF s.page > Len(in.pages) THEN (IF in.listErr THEN VFail(s, "listing-failed") ELSE [s EXCEPT !.pc = "finish"])
          ELSE [s EXCEPT !.pc = "item", !.i = 1]
     [] s.pc = "item" ->      \* loop head inside the callback
          IF s.i > in.pages[s.page] \/ s.processed >= in.n THEN [s EXCEPT !.pc = "endpage"]
@@ -49,7 +54,8 @@ VStep(s) ==
          IF in.listing[Abs(s)] = "unfetchable" THEN VFail(s, "unfetchable")
          ELSE [Call(s, "Verify", Abs(s)) EXCEPT !.pc = "verified"]
     [] s.pc = "verified" ->
-         IF in.listing[Abs(s)] = "valid"
+         IF in.listing[Abs(s)] = "nilOutcome" THEN VFail(s, "verifier-gave-no-outcome")
+         ELSE IF in.listing[Abs(s)] = "valid"
          THEN [s EXCEPT !.succeeded = Abs(s), !.outcomes = <<Abs(s)>>, !.pc = "finish"]    \* early break on success
          ELSE [s EXCEPT !.i = @ + 1, !.pc = "item"]
     [] s.pc = "endpage" ->
@@ -74,11 +80,13 @@ RefOK(in) == in.ref \in {"tag", "digestMatch"}
 FirstValid(in) == IF \E k \in 1..Len(in.listing) : in.listing[k] = "valid"
                   THEN CHOOSE k \in 1..Len(in.listing) : in.listing[k] = "valid" /\ \A j \in 1..(k - 1) : in.listing[j] # "valid"
                   ELSE 0
+(* a good, fetchable signature among the first N, nothing before it that stops the evaluation (a signature that cannot be
+   fetched, a verifier that gives no outcome); an error of the listing AFTER the good signature was found does not matter *)
 D_VerifySucceeds(in) ==
-  /\ in.n > 0
-  /\ (in.skip \/ (/\ RefOK(in)
-                  /\ FirstValid(in) # 0 /\ FirstValid(in) <= in.n
-                  /\ \A j \in 1..(FirstValid(in) - 1) : in.listing[j] # "unfetchable"))
+  /\ in.n > 0 /\ in.skip # "error"
+  /\ (in.skip = "yes" \/ (/\ RefOK(in)
+                         /\ FirstValid(in) # 0 /\ FirstValid(in) <= in.n
+                         /\ \A j \in 1..(FirstValid(in) - 1) : in.listing[j] \notin {"unfetchable", "nilOutcome"}))
 
 (***************************************************************************)
 (* Part 2 (C11): notation.SignOCI - resolve, pin the digest, merge the     *)
